@@ -15,8 +15,11 @@ import sys
 import types
 
 import fiddle as fdl
+import zlib
+
 from fiddle._src import casting
 from fiddle._src import copying
+from fiddle._src import tagging
 from fiddle._src.experimental import serialization
 
 from harness import common
@@ -58,6 +61,43 @@ JSON_CODECS = {
 CODECS = COPY_CODECS     # set by the caller before the pool is created
 
 
+def tag_targets(cfg, sig, S):
+  """Every argument the tagging API can address: (key for the API, printable key), set or not."""
+  out = []
+  n = store.npos(sig)
+  for i, p in enumerate(sig):
+    if p['k'] == 'PO':
+      out.append((i, f'#{i}'))
+    elif p['k'] in ('PK', 'KO'):
+      out.append((pool.pname(i + 1), pool.pname(i + 1)))
+  if store.has(sig, 'VP'):
+    for j in range(len(S['va']) + 1):          # also the first free *args cell
+      out.append((n + j, f'#{n + j}'))
+  if store.has(sig, 'VK'):
+    out += [('x101', 'x101'), ('x102', 'x102')]
+  return out
+
+
+def apply_tags(cfg, sig, S):
+  """Tags a deterministic selection of the addressable arguments (with and without a value)."""
+  from harness import heap as H  # pylint: disable=g-import-not-at-top
+  base = zlib.crc32((pool.sig_key(sig) + repr(S)).encode())
+  for j, (key, _) in enumerate(tag_targets(cfg, sig, S)):
+    pick = (base + 7 * j) % 4
+    try:
+      if pick == 0:
+        tagging.add_tag(cfg, key, H.T0)
+      elif pick == 1:
+        tagging.set_tags(cfg, key, [H.T1, H.T2])
+    except Exception:  # an argument the API refuses is no subject of this law  # pylint: disable=broad-except
+      pass
+
+
+def tag_view(cfg):
+  from harness import heap as H  # pylint: disable=g-import-not-at-top
+  return sorted((repr(k), H.tag_mask(ts)) for k, ts in cfg.__argument_tags__.items() if ts)
+
+
 def realise(rec):
   sig = rec['sig']
   fn = _importable(sig)
@@ -77,7 +117,7 @@ def realise(rec):
 
 def work(lines):
   common.quiet_logging()
-  stats = {'lines': 0, 'states': 0, 'round_trips': 0, 'positional': 0}
+  stats = {'lines': 0, 'states': 0, 'round_trips': 0, 'positional': 0, 'tagged': 0}
   mism = []
   for line in lines:
     rec = common.decode_line(line)
@@ -97,6 +137,9 @@ def work(lines):
     except Exception:  # pylint: disable=broad-except
       built0 = None
     stats['round_trips'] += len(CODECS)
+    apply_tags(cfg, sig, S)
+    if tag_view(cfg):
+      stats['tagged'] = stats.get('tagged', 0) + 1
     mism += check_cfg(cfg, sig, S, CODECS, positional, built0)
   return stats, mism
 
@@ -118,6 +161,32 @@ def check_cfg(cfg, sig, S, codecs, positional, built0):
         continue
       if not store.state_eq(store.project(cfg, sig), S):
         mism.append((dict(feat, observed='original-changed'), dict(case, message=f'{name} changed the original')))
+      # tags (also on arguments without a value, on positional cells and on **kwargs names) survive,
+      # and the result accepts tag edits on every argument the original accepts them on
+      if tag_view(c2) != tag_view(cfg):
+        mism.append((dict(feat, observed='tags-differ'),
+                     dict(case, message=f'tags after {name}: {tag_view(c2)} expected {tag_view(cfg)}')))
+      else:
+        from harness import heap as H  # pylint: disable=g-import-not-at-top
+        probe = codec(cfg) if name != 'copy' else copy.deepcopy(c2)
+        for key, label in tag_targets(cfg, sig, S):
+          ref = copy.deepcopy(cfg)
+          try:
+            tagging.get_tags(ref, key)
+            tagging.add_tag(ref, key, H.T2)
+            exp = 'ok'
+          except Exception:  # pylint: disable=broad-except
+            exp = 'raise'
+          try:
+            tagging.get_tags(probe, key)
+            tagging.add_tag(probe, key, H.T2)
+            got = 'ok'
+          except Exception as e:  # pylint: disable=broad-except
+            got = 'raise'
+          if got != exp:
+            mism.append((dict(feat, observed='tag-edit-on-result'),
+                         dict(case, message=f'tag edit on {label} of the {name}: {got}, on the original: {exp}')))
+            break
       try:
         eq = (c2 == cfg) and (cfg == c2)
       except Exception as e:  # pylint: disable=broad-except
